@@ -277,6 +277,15 @@ func Build(v sb.V) interface{} {
 		return NilEmbIface{X: 1}
 	case "embednil:safe":
 		return NilEmbSafe{X: 1}
+	case "aliastables":
+		// one list whose only element is a table of rows ...
+		return []stick.Value{aliasRows}
+	case "aliasrows":
+		return aliasRows
+	case "aliashead":
+		// ... and the first row as a slice: same address and length as the
+		// table, another list altogether
+		return aliasRows[0][:]
 	case "dagarr":
 		// the same sharing through pointers to arrays
 		var g stick.Value = &[1]stick.Value{"leaf"}
@@ -736,3 +745,5 @@ type NilEmbTime struct {
 	*time.Time
 	Name string
 }
+
+var aliasRows = [][2]int{{1, 2}, {3, 4}}
